@@ -27,18 +27,19 @@ ASSUMPTIONS = ['vf/models/x691.py is X.691 (gate: the 8 Annex A vectors must pas
                'time types, SIZE (MIN..MAX)']
 REPORT = ['modules', 'evaluations', 'byte_comparisons', 'decode_of_model_bytes', 'model_undecided', 'declared_unsupported',
           'annex_a_vectors_passed', 'not_accepted_by_checks', 'carved_out']
-FLOORS = {'quick': {'byte_comparisons': 20000, 'decode_of_model_bytes': 15000}, 'thorough': {'byte_comparisons': 200000}}
+FLOORS = {'quick': {'byte_comparisons': 20000, 'decode_of_model_bytes': 15000},
+          'thorough': {'byte_comparisons': 80000, 'decode_of_model_bytes': 60000}}
 TIMEOUT = {'quick': 1800, 'thorough': 14000}
 
 
 def shards(tier):
-    return 32 if tier == 'quick' else 128
+    return 32 if tier == 'quick' else 64
 
 
 def params(tier):
     if tier == 'quick':
         return {'modules': 12, 'values': 10}
-    return {'modules': 30, 'values': 20}
+    return {'modules': 36, 'values': 15}
 
 
 def profile(tier):
